@@ -442,6 +442,57 @@ fn parse_xor_address(value: &[u8], transaction_id: &[u8; 12]) -> Result<Option<S
     }
 }
 
+/// Verify the short-term credential of an inbound ICE connectivity check
+/// (RFC 8445 §7.3, RFC 5389 §10.1.2): the request must carry a USERNAME of the
+/// form `<local ufrag>:<peer ufrag>` and a MESSAGE-INTEGRITY attribute that is
+/// the HMAC-SHA1 of the message up to that attribute (with the header length
+/// adjusted to end at it) keyed with the local ICE password. Attributes behind
+/// MESSAGE-INTEGRITY are not covered by it and are not looked at here.
+pub fn verify_request_credentials(bytes: &[u8], local_ufrag: &str, key: &[u8]) -> bool {
+    if bytes.len() < 20 {
+        return false;
+    }
+    let length = u16::from_be_bytes([bytes[2], bytes[3]]) as usize;
+    if length + 20 != bytes.len() {
+        return false;
+    }
+    let mut username_ok = false;
+    let mut offset = 20;
+    while offset + 4 <= bytes.len() {
+        let typ = u16::from_be_bytes([bytes[offset], bytes[offset + 1]]);
+        let len = u16::from_be_bytes([bytes[offset + 2], bytes[offset + 3]]) as usize;
+        let value_start = offset + 4;
+        if value_start + len > bytes.len() {
+            return false;
+        }
+        let value = &bytes[value_start..value_start + len];
+        match typ {
+            0x0006 => {
+                username_ok = value
+                    .strip_prefix(local_ufrag.as_bytes())
+                    .is_some_and(|rest| rest.first() == Some(&b':'));
+            }
+            0x0008 => {
+                if !username_ok || len != 20 {
+                    return false;
+                }
+                let mut covered = bytes[..offset].to_vec();
+                write_length_field(&mut covered, offset - 20 + 24);
+                let expected = hmac_sha1(key, &covered);
+                // constant-time comparison
+                let diff = expected
+                    .iter()
+                    .zip(value.iter())
+                    .fold(0u8, |acc, (a, b)| acc | (a ^ b));
+                return diff == 0;
+            }
+            _ => {}
+        }
+        offset = value_start + len + (4 - (len % 4)) % 4;
+    }
+    false
+}
+
 fn hmac_sha1(key: &[u8], data: &[u8]) -> [u8; 20] {
     let mut mac = <HmacSha1 as hmac::digest::KeyInit>::new_from_slice(key).expect("HMAC key init");
     mac.update(data);
